@@ -35,7 +35,12 @@ Side(form, v, lower) ==
 Unit(lf, uf, fl, lv, uv) ==
   LET leaf == ("type" :> <<"integer">>) @@ Side(lf, lv, TRUE) @@ Side(uf, uv, FALSE)
       docs == SetToSeq({x \in DocVals : InInt64(x)})
+      ty == MinIntType(PMin(leaf), PMax(leaf), PEx(leaf, "exclusiveMinimum"), PEx(leaf, "exclusiveMaximum"), {})
+      \* a bound that is not removed is emitted as a constant compared with a field of the chosen type
+      lowerLeft == lf # "none" /\ ~ty.rmin /\ ~InRange(ty.ty, lv)
+      upperLeft == uf # "none" /\ ~ty.rmax /\ ~InRange(ty.ty, uv)
   IN PosUnit("C15", "req", leaf, docs, JNull) @@ [opts |-> [minSizedInts |-> fl]]
+     @@ [nobuild |-> IF fl /\ (lowerLeft \/ upperLeft) THEN <<"SizedBoundConstantOverflows">> ELSE <<>>]
 
 u == Unit(lowForm, upForm, flag, vs[1], vs[2])
 Set == vs # <<>>
